@@ -138,7 +138,14 @@ int init_socket_peer(struct socket_peer *p, struct buffered_reader *reader, bool
 	br->set_error_handler = reader->set_error_handler;
 	br->writev = reader->writev;
 
-	br->read_exactly(br->this_ptr, 4, read_msg_length, p);
+	if (unlikely(br->read_exactly(br->this_ptr, 4, read_msg_length, p) < 0)) {
+		/*
+		 * The connection could not be registered with the event loop:
+		 * nobody would ever read from it or notice its end.
+		 */
+		free_peer_resources(&p->peer);
+		return -1;
+	}
 	return 0;
 }
 
